@@ -69,7 +69,7 @@ def run(tier):
     cases = corpus.generate(rep, specs, timeout=900 if tier == "quick" else 3000)
     rep.extra["generate_s"] = round(time.time() - t0, 1)
     if tier == "quick":
-        keep = {"elementwise": 4, "update_at": 4, "get_at": 2, "id": 2}      # quick: every k-th case of the largest families
+        keep = {"elementwise": 4, "update_at": 10, "get_at": 2, "id": 2}      # quick: every k-th case of the largest families
         cases = [c for i, c in enumerate(cases) if i % keep.get(c["fam"], 1) == 0]
     fams = {}
     for c in cases:
